@@ -5,10 +5,22 @@ open Twin
 
 def isSpaceAt (o : Option ANode) : Bool := (o.map (·.kind == .space)).getD false
 
+mutual
+/-- `ends_with_linebreak`: the last token of the node is a linebreak, at any depth. -/
+def endsWithLinebreak : ANode → Bool
+  | .leaf _ _ _ => false
+  | .inner _ cs _ => endsWithLinebreakL cs
+def endsWithLinebreakL : List ANode → Bool
+  | [] => false
+  | [a] => a.kind == .linebreak || endsWithLinebreak a
+  | _ :: rest => endsWithLinebreakL rest
+end
+
 def equationItem (e : Env) (r : Rec) (cs : List ANode) (isBlock : Bool) (c : Ctx) (child : ANode) : M (Option Doc) := do
   if child.kind != .math then return none
   if child.children.length == 0 then return none
-  let lastIsLinebreak := (((child.children.filter (fun x => isExpr x || x.kind == .space)).getLast?).map (·.kind == .linebreak)).getD false
+  let lastIsLinebreak := ((((child.children.filter (fun x => isExpr x || x.kind == .space)).getLast?).map (·.kind == .linebreak)).getD false)
+    || endsWithLinebreak child
   let trailing := lastIsLinebreak && isSpaceAt (cs.reverse)[1]? && (((cs.reverse)[2]?).map (·.kind == .math)).getD false
   let body ← r.math c child
   pure (some (if !isBlock && trailing then body ++ e.soft " " else body))
@@ -59,17 +71,31 @@ def convMathDelimited (e : Env) (r : Rec) (ctx : Ctx) (n : ANode) : M Doc := do
   let cl ← r.expr ctx (← childOr (lastWhere n isExpr) "MathDelimited without close")
   pure ((((a.1 ++ body).nstTab) ++ b.1).enclose op cl)
 
-def attachProducer (e : Env) (r : Rec) (_ : Unit) (c : Ctx) (node : ANode) : M (Unit × Option FlowItem) := do
+/-- State: the last node was a hashed expression that ends with an identifier. -/
+def attachProducer (e : Env) (r : Rec) (afterHashedIdent : Bool) (c : Ctx) (node : ANode) : M (Bool × Option FlowItem) := do
+  if isExpr node then
+    let a := c.mode.isCode && (node.kind == .ident || node.kind == .fieldAccess)
+    pure (a, some ⟨← r.expr c node, false, a⟩)
+  else if node.kind == .space then pure (afterHashedIdent, none)
+  else if node.kind == .underscore && afterHashedIdent then pure (false, some ⟨e.tok node.text, true, false⟩)
+  else pure (false, tight (e.tok node.text))
+
+/-- `convert_math_attach`. -/
+def convMathAttach (e : Env) (r : Rec) (ctx : Ctx) (n : ANode) : M Doc :=
+  flowM e ctx n.children false (attachProducer e r)
+
+def rootProducer (e : Env) (r : Rec) (_ : Unit) (c : Ctx) (node : ANode) : M (Unit × Option FlowItem) := do
   if isExpr node then pure ((), tight (← r.expr c node))
   else if node.kind == .space then pure ((), none)
   else pure ((), tight (e.tok node.text))
 
-/-- `convert_math_attach` / `convert_math_root`. -/
-def convMathAttachLike (e : Env) (r : Rec) (ctx : Ctx) (n : ANode) : M Doc :=
-  flowM e ctx n.children () (attachProducer e r)
+/-- `convert_math_root`. -/
+def convMathRoot (e : Env) (r : Rec) (ctx : Ctx) (n : ANode) : M Doc :=
+  flowM e ctx n.children () (rootProducer e r)
 
 def fracProducer (e : Env) (r : Rec) (_ : Unit) (c : Ctx) (node : ANode) : M (Unit × Option FlowItem) := do
   if isExpr node then pure ((), spaced (← r.expr c node))
+  else if node.kind == .semicolon then pure ((), tightSpaced (e.tok node.text))
   else if node.kind != .space then pure ((), spaced (e.tok node.text))
   else pure ((), none)
 
